@@ -167,11 +167,13 @@ def main(argv=None):
             solver = variant.get('solver', meta.get('solver', args.solver))
             r = R.run_variant(meta, variant, gen_c, wd, PRELUDE, solver=solver)
             rec.update(r)
-            if args.tier == 'thorough' and meta.get('crosscheck', True) and meta.get('tier') == 'quick':
-                # cross-check with the built-in SAT back end (solver disagreement => undecided)
+            if args.tier == 'thorough' and meta.get('crosscheck', True) and meta.get('tier') == 'quick' and solver in ('cvc5', 'z3'):
+                rec['crosscheck'] = {'solver': None, 'skipped': 'float obligations: no second installed back end finishes (SAT and z3 4.8 time out)'}
+            elif args.tier == 'thorough' and meta.get('crosscheck', True) and meta.get('tier') == 'quick':
+                # cross-check with the other SAT back end (solver disagreement => undecided; a time-out of the
+                # second back end is recorded and is not a failure)
                 try:
                     m2 = dict(meta)
-                    m2['timeout'] = int(meta.get('timeout', 300)) * 4
                     other = 'minisat' if solver == 'kissat' else 'kissat'
                     r2 = R.run_variant(m2, variant, gen_c, wd, PRELUDE, solver=other)
                     s1 = {o['name']: o['status'] for o in r['obligations']}
